@@ -142,6 +142,9 @@ func (c *fctx) aliasSource(e ast.Expr, en *env) (string, bool) {
 			}
 		}
 	case *ast.CallExpr:
+		if c.freshConv17(x) { // [ext:T17] []rune(s) allocates a new array
+			return "", false
+		}
 		if id, ok := ast.Unparen(x.Fun).(*ast.Ident); ok {
 			if b, ok := c.t.info.Uses[id].(*types.Builtin); ok {
 				switch b.Name() {
@@ -507,6 +510,9 @@ func (c *fctx) binary(x *ast.BinaryExpr, en *env, k func(string) string) string 
 					return k("(" + b + " <=? " + a + ")")
 				}
 			}
+			if r, ok := c.binary17(x, a, b, k); ok { // [ext:T17] + == != on strings
+				return r
+			}
 			t.fail(x, "binary operator %s on %s", x.Op, t.info.Types[x.X].Type)
 			return ""
 		})
@@ -600,6 +606,9 @@ func (c *fctx) call(x *ast.CallExpr, en *env, k func([]string) string) string {
 			t.fail(x, "conversion")
 		}
 		to, from := t.exprType(x), t.exprType(x.Args[0])
+		if s, ok := c.conv17(x, en, k); ok { // [ext:T17] []rune(s), string(runes)
+			return s
+		}
 		if to.str || from.str { // [ext:T20] string <-> []byte, string(byte)
 			return c.strConv20(x, to, from, en, k)
 		}
@@ -689,6 +698,9 @@ func (c *fctx) call(x *ast.CallExpr, en *env, k func([]string) string) string {
 		return c.callFuncValue(x, en, k)
 	}
 	if s, ok := c.seqCall(x, en, k); ok { // [seq] sync/atomic, runtime.Gosched
+		return s
+	}
+	if s, ok := c.call17(x, en, k); ok { // [ext:T17] strings.Repeat, strings.Builder methods
 		return s
 	}
 	if s, ok := c.call07(x, en, k); ok { // [ext:T07] modelled standard-library functions, identity functions
